@@ -37,7 +37,7 @@ var allHookPoints = []string{hpDead, hpRelease, hpPop, hpCounted, hpWait, hpStuc
 var errFakeKilled = errors.New("fake connection killed")
 var errFakeRPC = errors.New("fake rpc error (not retryable)")
 
-const settleWatchdog = 40 * time.Second
+const settleWatchdog = 60 * time.Second
 
 type actorKind int
 
